@@ -117,9 +117,14 @@ Definition corr_conn (c : conn_case) : Z :=
   match tr_sent tr with
   | None => 4
   | Some ms =>
-      if sent_eqb ms (cc_sent c) && calls_eqb (tr_calls tr) (cc_calls c)
+      (* flag bit 2: the transport delayed writes (Pending); M1 has instantaneous writes, so
+         such runs are compared without the send / call / end times *)
+      let untimed := Z.testbit (cc_flags c) 2 in
+      let strip (l : list (Z * Z * bytes)) := if untimed then map (fun x => (0, snd (fst x), snd x)) l else l in
+      let stripc (l : list (Z * call)) := if untimed then map (fun x => (0, snd x)) l else l in
+      if sent_eqb (strip ms) (strip (cc_sent c)) && calls_eqb (stripc (tr_calls tr)) (stripc (cc_calls c))
          && match tr_end tr with
-            | Some (t, o) => outcome_eqb o (cc_outcome c) && (t =? cc_end c)
+            | Some (t, o) => outcome_eqb o (cc_outcome c) && (untimed || (t =? cc_end c))
             | None => false
             end
       then 0 else 1
